@@ -3,6 +3,7 @@
 mod doubles;
 mod framework;
 mod hooks;
+mod oracles;
 mod scenarios;
 mod simnet;
 mod util;
